@@ -61,6 +61,38 @@ def run_check(d, prop, tier="quick"):
     return r.returncode, r.stdout
 
 
+def run_for_property(prop, limit=None):
+    """Run the breaking mutants that name `prop` (quick tier) and the benign mutants that list it.
+    -> dict(caught=[..], missed=[..], false_alarm=[..], silent=[..], skipped=[..])"""
+    res = {"caught": [], "missed": [], "false_alarm": [], "silent": [], "skipped": []}
+    muts = [m for m in load([]) if m.get("tier", "quick") == "quick" and
+            ((m["kind"] == "breaking" and any(e["prop"] == prop for e in m["expect"])) or (m["kind"] == "benign" and prop in m.get("props", [])))]
+    if limit:
+        muts = muts[:limit]
+    for m in muts:
+        d = make_scratch()
+        try:
+            err = apply(m, d)
+            if err:
+                res["skipped"].append(m["name"])
+                continue
+            if m["kind"] == "breaking":
+                ok = True
+                for ex in m["expect"]:
+                    if ex["prop"] != prop:
+                        continue
+                    rc, out = run_check(d, prop)
+                    if not (rc == 1 and (("VIOLATION %s " % ex["rule"]) in out or ("ANCHOR-MISSING %s " % ex["rule"]) in out)):
+                        ok = False
+                res["caught" if ok else "missed"].append(m["name"])
+            else:
+                rc, out = run_check(d, prop)
+                res["silent" if rc == 0 else "false_alarm"].append(m["name"])
+        finally:
+            shutil.rmtree(d, ignore_errors=True)
+    return res
+
+
 def main():
     filters = [a for a in sys.argv[1:] if not a.startswith("-")]
     verbose = "-v" in sys.argv
